@@ -178,3 +178,80 @@ def column_slots_rule(ctx, P, rid):
                bad[0][0].loc() if bad else "%s:%s" % (f.file, f.line)) if bad or f.kind != "closure" else None
     ctx.floor(rid, n_fn, 5, "column-building functions in index::fastfields")
     ctx.floor(rid + ".detector", n_map, 3, "slot-to-slot `map` conversions seen by the same detector (scalar -> list upgrades)")
+
+
+IS_DELETED_FN = "searchlite_core::index::segment::SegmentReader::is_deleted"
+
+
+def is_not_deleted_filter(P, h):
+    """closure `|id| !seg.is_deleted(id)`: calls is_deleted, no other call of the workspace, and returns the negation of its result"""
+    from sa.prog import callee_of, op_local
+    calls = [callee_of(t) for b, t in h.calls()]
+    if IS_DELETED_FN not in calls:
+        return False
+    if any(c in P.fns and c != IS_DELETED_FN for c in calls):
+        return False
+    res = [t["dst"]["l"] for b, t in h.calls() if callee_of(t) == IS_DELETED_FN]
+    for d in h.defs().get(0, []):
+        if d["k"] == "assign" and d["rv"]["k"] == "unop" and d["rv"].get("op") == "Not" and op_local(d["rv"]["a"]) in res:
+            return True
+    return False
+
+
+def chain_filters(P, fn, operand):
+    """Closures used by filter-like adapters in the iterator chain behind `operand` (in fn)."""
+    from sa.prog import Slice, callee_of
+    sl = Slice(fn, through_all_calls=True)
+    out = []
+    for x in sl.sources(operand):
+        if x[0] == "call" and callee_of(x[2]).endswith(("Iterator::filter", "Iterator::filter_map", "Iterator::take_while", "Iterator::skip_while",
+                                                          "Iterator::skip", "Iterator::take", "Iterator::step_by")):
+            clos = []
+            for a in x[2]["args"][1:]:
+                for y in sl.sources(a):
+                    if y[0] == "agg" and y[3].get("closure") and P.fn(y[3]["closure"]) is not None:
+                        clos.append(P.fn(y[3]["closure"]))
+            out.append((callee_of(x[2]).rsplit("::", 1)[1], x[1], clos))
+    return out
+
+
+def adapter_calls_with_closure(P, g):
+    """[(parent fn, block, terminator)] where closure g is handed to an iterator adapter (map / for_each / ...)."""
+    from sa.prog import Slice
+    par = P.fn(g.parent) if g.parent else None
+    out = []
+    if par is None:
+        return out
+    sl = Slice(par, through_all_calls=True)
+    for b, t in par.calls():
+        for a in t["args"][1:]:
+            if any(y[0] == "agg" and y[3].get("closure") == g.path for y in sl.sources(a)):
+                out.append((par, b, t))
+    return out
+
+
+def filter_drops_deleted(P, h):
+    """Weaker than is_not_deleted_filter: on every path of closure h on which is_deleted(..) returned true the closure returns
+    false (it may drop more).  Decided by path enumeration over the closure (sa.boolpaths), nothing is executed."""
+    from sa import boolpaths
+    from sa.prog import callee_of
+    if IS_DELETED_FN not in [callee_of(t) for b, t in h.calls()]:
+        return False
+    A = ("is_deleted",)
+
+    def call_atom(t, val):
+        return ("atom", A, False) if callee_of(t) == IS_DELETED_FN else None
+    ps = boolpaths.paths(h, 0, lambda b: None, call_atom=call_atom, track_return=True)
+    if not ps:
+        return False
+    for p_ in ps:
+        if p_.end[0] != "return":
+            continue
+        r = p_.ret
+        if p_.cons.get(A) is True:
+            if r != ("const", 0):
+                return False
+        elif A not in p_.cons:
+            if not (r == ("const", 0) or (r is not None and r[0] == "atom" and r[1] == A and r[2] is True)):
+                return False
+    return True
